@@ -4,7 +4,7 @@ from __future__ import annotations
 import ast
 
 from ..absint import in_try_catching, parent_map, enclosing
-from ..dtable import simulate, collect_atoms, Unsupported
+from ..dtable import simulate, collect_atoms, atoms_of, Unsupported
 from ..loader import norm, own_nodes, AnalysisError
 from .c11 import _callee_fns, _passed, effective_kw
 from .c16 import _paths
@@ -244,18 +244,49 @@ def r124(ctx, rep):
             rep.violated('R12.4', fn, 'no converter -> return v',
                          'a cell of a field without converter is not returned unchanged (%s)' % (oc,), fn.node)
     it = ctx.project.need_fn('petl.transform.conversions:iterfieldconvert')
-    # where false -> the row itself
-    ok = False
-    for n in own_nodes(it.node):
-        if isinstance(n, ast.If) and norm(n.test).startswith('where('):
-            els = [norm(s) for s in n.orelse]
-            if els == ['yield _row'] or els == ['yield tuple(_row)'] or els == ['yield row'] or els == ['yield tuple(row)']:
-                ok = True
-    if ok:
-        rep.held('R12.4', it, 'where false -> row unchanged', '', it.node)
-    else:
-        rep.violated('R12.4', it, 'where false -> row unchanged',
-                     'a row for which `where` is false is no longer delivered unchanged', it.node)
+    # where false -> the row itself: decided on the data loop(s) whose body consults `where(...)`, for the valuation
+    # "there is a where function and it rejects this row", whatever the shape of the tests
+    verdicts = []
+    for lp in own_nodes(it.node):
+        if not isinstance(lp, ast.For) or not isinstance(lp.target, ast.Name):
+            continue
+        tests = [x.test for x in ast.walk(lp) if isinstance(x, (ast.If, ast.IfExp))]
+        atoms = []
+        for t in tests:
+            for a in atoms_of(t):
+                if a not in atoms:
+                    atoms.append(a)
+        if not any(a.startswith('where(') for a in atoms):
+            continue
+        val = {}
+        for a in atoms:
+            if a.startswith('where('):
+                val[a] = False
+            elif a == 'where is None':
+                val[a] = False
+            elif a in ('where is not None', 'where'):
+                val[a] = True
+        try:
+            oc = simulate(lp.body, val)
+        except (Unsupported, KeyError) as e:
+            verdicts.append(('undecided', lp, 'loop body not recognised: %s' % e))
+            continue
+        ys = [x for s2 in oc.effects for x in ast.walk(s2) if isinstance(x, ast.Yield)]
+        row = lp.target.id
+        if len(ys) == 1 and ys[0].value is not None and norm(ys[0].value) in (row, 'tuple(%s)' % row):
+            verdicts.append(('held', lp, norm(ys[0].value)))
+        else:
+            verdicts.append(('violated', lp, '; '.join(norm(x) for x in oc.effects) or 'nothing'))
+    if not verdicts:
+        raise AnalysisError('anchor vanished: no data loop of iterfieldconvert consults where(row)')
+    for st, lp, info in verdicts:
+        if st == 'held':
+            rep.held('R12.4', it, 'where false -> row unchanged', 'yield %s' % info, lp)
+        elif st == 'undecided':
+            rep.undecided('R12.4', it, 'where false -> row unchanged', info, lp)
+        else:
+            rep.violated('R12.4', it, 'where false -> row unchanged',
+                         'a row for which `where` is false is no longer delivered unchanged (the loop does: %s)' % info, lp)
 
 
 # ------------------------------------------------------------------------ R12.7
